@@ -21,6 +21,7 @@
 
 #include <atomic>
 #include <map>
+#include <dirent.h>
 #include <poll.h>
 #include <sys/wait.h>
 #include <memory>
@@ -1642,6 +1643,8 @@ int main(int argc, char** argv)
     if (a.has("part"))
         std::sscanf(a.s("part").c_str(), "%ld/%ld", &part, &parts);
     double deadline = t0 + double(a.n("time_s", thorough ? 1000 : 100));
+    if (a.has("deadline")) // absolute time given by the driver: one global deadline for all jobs of a run
+        deadline = std::min(deadline, std::atof(a.s("deadline").c_str()));
 
     auto progs = programs(shape, thorough);
     int  cpu   = a.has("nopin") ? -1 : sched::pin_to_free_cpu();
@@ -1898,7 +1901,7 @@ static long free_run_storage(const std::string& storage, const program& p, long 
 
 // A broken wrapper can misuse std::mutex (e.g. a surplus unlock), after which a free run may never end and
 // the sanitizer runtime itself may be wedged. Every batch of free runs therefore happens in a forked child
-// (the parent never creates a thread) that streams its progress through a pipe; "no line for 10 s" = hang.
+// (the parent never creates a thread) that streams its progress through a pipe; "no line and all threads asleep for 10 s" = hang.
 struct batch_result
 {
     long runs = 0, reports = 0;
@@ -1907,6 +1910,7 @@ struct batch_result
     std::vector<std::pair<long, std::string>> bad; // program index, text
 };
 
+static double g_tsan_deadline = 0;
 static batch_result run_batch(const std::string& storage, const std::vector<program>& progs, long iters)
 {
     batch_result br;
@@ -1921,6 +1925,8 @@ static batch_result run_batch(const std::string& storage, const std::vector<prog
         FILE* w = fdopen(fd[1], "w");
         for (std::size_t i = 0; i < progs.size(); ++i)
         {
+            if (g_tsan_deadline > 0 && now_s() > g_tsan_deadline)
+                break; // sampling side run: simply stop at the global deadline of the check
             std::fprintf(w, "P %zu\n", i);
             std::fflush(w);
             long bad = 0;
@@ -1938,8 +1944,52 @@ static batch_result run_batch(const std::string& storage, const std::vector<prog
     bool        done = false;
     while (!done)
     {
+        // hang = no progress line AND the child is not even trying to run: every one of its threads asleep and its cpu
+        // time unchanged for 10 s in a row. (Wall time alone would call a child that is merely starved on an overloaded
+        // machine a hang; a starved thread is runnable, state R.) Hard stop after 600 s without a line.
         pollfd pf{fd[0], POLLIN, 0};
-        int    rc = poll(&pf, 1, 10000);
+        int    rc = 0, idle = 0, waited = 0;
+        long   last_ticks = -1;
+        while ((rc = poll(&pf, 1, 2000)) == 0)
+        {
+            waited += 2;
+            bool runnable = false;
+            long ticks    = 0;
+            char path[64];
+            std::snprintf(path, sizeof path, "/proc/%d/task", int(pid));
+            if (DIR* d = opendir(path))
+            {
+                while (dirent* e = readdir(d))
+                {
+                    if (e->d_name[0] == '.')
+                        continue;
+                    char sp[128];
+                    std::snprintf(sp, sizeof sp, "/proc/%d/task/%s/stat", int(pid), e->d_name);
+                    if (FILE* f = std::fopen(sp, "r"))
+                    {
+                        char line[1024];
+                        if (std::fgets(line, sizeof line, f))
+                        {
+                            const char* q = std::strrchr(line, ')'); // after the command name
+                            char        st = 'S';
+                            long        ut = 0, stt = 0;
+                            if (q && std::sscanf(q + 1, " %c %*d %*d %*d %*d %*d %*u %*u %*u %*u %*u %ld %ld", &st, &ut, &stt) == 3)
+                            {
+                                ticks += ut + stt;
+                                if (st == 'R' || st == 'D')
+                                    runnable = true;
+                            }
+                        }
+                        std::fclose(f);
+                    }
+                }
+                closedir(d);
+            }
+            idle       = (!runnable && ticks == last_ticks) ? idle + 1 : 0;
+            last_ticks = ticks;
+            if (idle >= 5 || waited >= 600)
+                break;
+        }
         if (rc <= 0)
         {
             br.hung      = true;
@@ -1993,7 +2043,7 @@ int main(int argc, char** argv)
         program     p       = json_ints(js, "prog");
         auto        br      = run_batch(storage, {p}, 200);
         std::printf("program=%s storage=%s: %s%s\n", prog_json(p, true).c_str(), storage.c_str(),
-                    br.hung ? "free run did not finish within 10 s (hang or crash); " : "",
+                    br.hung ? "free run made no progress (all threads asleep for 10 s: hang, or crash); " : "",
                     br.bad.empty() ? "no ThreadSanitizer report" : br.bad[0].second.c_str());
         std::fflush(stdout);
         std::_Exit(br.hung || !br.bad.empty() ? 1 : 0);
@@ -2002,6 +2052,8 @@ int main(int argc, char** argv)
     bool   thorough = a.s("tier", "quick") == "thorough";
     long   iters    = a.n("iters", thorough ? 20 : 3);
     auto   progs    = programs("2x2", thorough);
+    if (a.has("deadline"))
+        g_tsan_deadline = std::atof(a.s("deadline").c_str());
     jarr   viols, samples;
     long   runs = 0, nviol = 0, reports = 0, hangs = 0;
     auto   add_viol = [&](const char* storage, const program& p, const std::string& what) {
@@ -2023,7 +2075,7 @@ int main(int argc, char** argv)
         {
             ++hangs;
             if (br.hung_prog >= 0)
-                add_viol(storage, progs[std::size_t(br.hung_prog)], "free run did not finish within 10 s (hang or crash, e.g. std::mutex misuse)");
+                add_viol(storage, progs[std::size_t(br.hung_prog)], "free run made no progress (all threads asleep for 10 s: hang, or crash, e.g. std::mutex misuse)");
         }
         samples.raw(jobj().raw("program", prog_json(progs[0], true)).str("storage", storage).num("free_runs_per_program", iters).done());
     }
